@@ -55,6 +55,9 @@ fn label_of(ctx: &Context, f: Function, op: &InstOp) -> String {
         }
         _ => {}
     }
+    if is_pure(op) {
+        s = format!("pure:{s}");
+    }
     s
 }
 
@@ -66,9 +69,15 @@ enum Opd {
 /// Coq term of C03.Model.fn; label and constant numbers are looked up through `intern` AFTER the callee
 /// names inside labels have been mapped through `rep` (the merges the pass performed).
 fn export_body(ctx: &Context, f: Function, rep: &HashMap<String, String>, intern: &mut Interner) -> String {
+    let mut vid: HashMap<Value, usize> = HashMap::new();
+    export_body_ids(ctx, f, rep, intern, &mut vid, true)
+}
+
+/// `vid` may be shared between two exports of the same function (before / after a pass) so that a value
+/// keeps its number; `with_sig` adds the signature pseudo instruction.
+fn export_body_ids(ctx: &Context, f: Function, rep: &HashMap<String, String>, intern: &mut Interner, vid: &mut HashMap<Value, usize>, with_sig: bool) -> String {
     let blocks: Vec<Block> = f.block_iter(ctx).collect();
     let bidx: HashMap<Block, usize> = blocks.iter().enumerate().map(|(i, b)| (*b, i)).collect();
-    let mut vid: HashMap<Value, usize> = HashMap::new();
     let mut id_of = |v: Value| -> usize {
         let n = vid.len();
         *vid.entry(v).or_insert(n)
@@ -147,7 +156,7 @@ fn export_body(ctx: &Context, f: Function, rep: &HashMap<String, String>, intern
                 body.push(format!("mkI {} {} [{}]", id, intern.id(label), os.join(";")));
             }
         }
-        if bi == 0 {
+        if bi == 0 && with_sig {
             // pseudo instruction with a fresh id
             let fresh = 1_000_000 + bi;
             body.insert(0, format!("mkI {} {} []", fresh, intern.id(format!("sig:{sig}"))));
@@ -242,6 +251,92 @@ fn dedup(out: &mut impl Write, text: &str, prefix: &str, pass: &str) {
         }
         let gone = unresolved.len();
         lines.push(format!("N {} {} {} {}", names_before.len(), names_after.len(), pairs.len(), gone));
+        Ok(lines)
+    });
+    match r {
+        Ok(Ok(ls)) => {
+            for l in ls {
+                writeln!(out, "{}", l).unwrap();
+            }
+        }
+        Ok(Err(e)) => writeln!(out, "N err {}", e).unwrap(),
+        Err(p) => writeln!(out, "N panic {}", clip(p)).unwrap(),
+    }
+}
+
+/// Instructions without an effect on the machine state (their result may depend on it): candidates for
+/// removal by dead-code elimination. Arithmetic is included although it can trap on the VM (see the
+/// KNOWN_FINDINGS entry on removed trapping instructions); stores, calls, asm blocks, logs, state access,
+/// memory copies are not.
+fn is_pure(op: &InstOp) -> bool {
+    matches!(
+        op,
+        InstOp::BitCast(..)
+            | InstOp::UnaryOp { .. }
+            | InstOp::BinaryOp { .. }
+            | InstOp::CastPtr(..)
+            | InstOp::Cmp(..)
+            | InstOp::GetElemPtr { .. }
+            | InstOp::GetLocal(_)
+            | InstOp::GetGlobal(_)
+            | InstOp::GetConfig(_)
+            | InstOp::GetStorageKey(_)
+            | InstOp::IntToPtr(..)
+            | InstOp::Load(_)
+            | InstOp::Nop
+            | InstOp::PtrToInt(..)
+    )
+}
+
+/// pair <id> <file> <prefix> <pass>: bodies of every function before and after <pass> (same value numbers),
+/// for functions that changed:  Q <fn> <nblocks before> <nblocks after> <before>\x01<after>\x01<block map>\x01<pure labels>
+/// block map = for every block after the pass its index before the pass.
+fn pair(out: &mut impl Write, text: &str, prefix: &str, pass: &str) {
+    let r = guarded(|| -> Result<Vec<String>, String> {
+        let se = sway_types::SourceEngine::default();
+        let mut ctx = parse_ir(text, &se).map_err(|e| format!("parse:{}", err_class(&e)))?;
+        let mut pm = new_pass_manager();
+        for name in prefix.split(',').filter(|s| !s.is_empty() && *s != "-") {
+            run_pass(&mut pm, &mut ctx, name).map_err(|e| format!("prefix:{e}"))?;
+        }
+        let rep = HashMap::new();
+        let mut intern = Interner::default();
+        let fns = all_functions(&ctx);
+        let mut vids: HashMap<Function, HashMap<Value, usize>> = HashMap::new();
+        let mut before: HashMap<Function, (String, Vec<Block>)> = HashMap::new();
+        for f in &fns {
+            let vid = vids.entry(*f).or_default();
+            let t = export_body_ids(&ctx, *f, &rep, &mut intern, vid, false);
+            before.insert(*f, (t, f.block_iter(&ctx).collect()));
+        }
+        run_pass(&mut pm, &mut ctx, pass).map_err(|e| format!("pass:{e}"))?;
+        let mut lines = vec![];
+        let mut same = 0;
+        for f in all_functions(&ctx) {
+            let Some((tb, blocks_before)) = before.get(&f) else { continue };
+            let vid = vids.entry(f).or_default();
+            let ta = export_body_ids(&ctx, f, &rep, &mut intern, vid, false);
+            if &ta == tb {
+                same += 1;
+                continue;
+            }
+            let bmap: Vec<String> = f
+                .block_iter(&ctx)
+                .map(|b| blocks_before.iter().position(|x| *x == b).map(|i| i.to_string()).unwrap_or_else(|| "9999".into()))
+                .collect();
+            // pure labels: every label of a pure instruction of the function before/after
+            lines.push(format!("Q {} {} {} {}\u{1}{}\u{1}[{}]", f.get_name(&ctx), blocks_before.len(), bmap.len(), tb, ta, bmap.iter().map(|s| format!("{s}%nat")).collect::<Vec<_>>().join(";")));
+        }
+        // pure label table (labels are interned per case)
+        let mut pure: Vec<usize> = vec![];
+        for (s, id) in &intern.map {
+            if s.starts_with("pure:") {
+                pure.push(*id);
+            }
+        }
+        pure.sort();
+        lines.push(format!("U [{}]", pure.iter().map(|p| p.to_string()).collect::<Vec<_>>().join(";")));
+        lines.push(format!("N {} {}", same, lines.len() - 1));
         Ok(lines)
     });
     match r {
@@ -377,6 +472,7 @@ fn main() {
         match mode {
             "dedup" => dedup(&mut out, &text, p[3], p.get(4).copied().unwrap_or("fn-dedup-release")),
             "run" => writeln!(out, "X {}", run_case(&text, p[3])).unwrap(),
+            "pair" => pair(&mut out, &text, p[3], p.get(4).copied().unwrap_or("dce")),
             _ => {}
         }
         writeln!(out, "E {}", id).unwrap();
